@@ -577,6 +577,22 @@ def norm_events(events, root=True):
     return out
 
 
+def exact_events(events):
+    """the output stream event by event: chunking of text and the Markup flag kept"""
+    from genshi.core import START, END, TEXT, Markup
+    out = []
+    for kind, data, _ in events:
+        if kind is START:
+            out.append(['S', str(data[0]), [[str(k), str(v)] for k, v in data[1]]])
+        elif kind is END:
+            out.append(['E', str(data)])
+        elif kind is TEXT:
+            out.append(['T', str(data), isinstance(data, Markup)])
+        else:
+            out.append(['O', str(kind)])
+    return out
+
+
 def unroot(ev):
     """drop the events of the root element <r> of to_markup"""
     if len(ev) >= 2 and ev[0][:2] == ['S', 'r'] and ev[-1] == ['E', 'r']:
@@ -584,7 +600,7 @@ def unroot(ev):
     return ev
 
 
-def render_real(lang, nodes, data, lookup='lenient'):
+def render_real(lang, nodes, data, lookup='lenient', exact=None):
     """['ok', normalised events] | ['err', exception class name] | ['invalid', class name] when the
     template source is rejected at construction"""
     cls = template_class(lang)
@@ -593,7 +609,10 @@ def render_real(lang, nodes, data, lookup='lenient'):
     except Exception as e:   # noqa  -- not a template of the grammar (only shrinking produces these)
         return ['invalid', type(e).__name__]
     try:
-        ev = norm_events(tmpl.generate(**data_kwargs(data)))
+        raw = list(tmpl.generate(**data_kwargs(data)))
+        if exact is not None:
+            exact.extend(exact_events(raw[1:-1] if lang == 'markup' else raw))
+        ev = norm_events(raw)
     except RecursionError:
         return ['err', 'RecursionError']
     except Exception as e:   # noqa
